@@ -419,6 +419,21 @@ func genG12(repo string, w *Out) error {
 		return fmt.Errorf("closeListener.Close: neither c.once.Do(c.onClose) nor c.onClose() found: %q", cls)
 	}
 	w.DefBool("close_calls_underlying", g12Has(cls, "call c.close()"))
+	// does anything let Close return between the underlying close and the Once?
+	early := false
+	seenClose := false
+	for _, t := range cls {
+		if t == "call c.close()" {
+			seenClose = true
+		}
+		if strings.HasPrefix(t, "call c.once.Do(") || t == "call c.onClose()" {
+			break
+		}
+		if seenClose && strings.HasPrefix(t, "return") {
+			early = true
+		}
+	}
+	w.DefBool("close_returns_early_on_errclosed", early)
 
 	// forwarder's trace hooks in middlewareStack: nil guards
 	hpf, err := Parse(repo, "http_proxy.go")
